@@ -186,7 +186,7 @@ fn c02_o4b_mutable_glue_after_cached_item() {
 }
 
 //@ ob: C07.O5
-//@ tier: thorough
+//@ tier: off
 //@ cap: 3000
 //@ mem: 28
 //@ standins: tracing lru vcoll
